@@ -227,6 +227,88 @@ struct Engine {
                              Fmt("r%d=%04X after step %s, then step %s: bits above the alignment mask %04X changed (%04X)", unit, o1.r[unit], stepn[code1], stepn[code2], m.mask, got), rp);
         digests.insert(Mix(((u64)op1 << 32) ^ op2 ^ ((u64)got << 16) ^ s.r[unit]));
     }
+
+    // a configuration instruction followed by a step in the same call: the step uses the configuration the first instruction
+    // established (`mid` = the state the statement expects after the first instruction)
+    void CheckCfgSeq(const char* what, u16 op1, u16 op2, const VState& s, const VState& mid, int unit, int code2) {
+        u16 words[2] = {op1, op2};
+        VState o2;
+        RunResult r2;
+        impl.api->run(impl.m, &s, words, 2, 2, &o2, &r2);
+        ++res.evaluations, res.transitions += 2, ++res.traces_validated;
+        if (r2.outcome != OUT_OK)
+            return;
+        Model m = StepModel(mid, unit, code2, false);
+        const char* stepn[] = {"zero", "+1", "-1", "+step", "+2", "-2", "+2*", "-2*"};
+        digests.insert(Mix(((u64)op1 << 32) ^ op2 ^ ((u64)o2.r[unit] << 16) ^ s.r[unit]));
+        if (m.defined && o2.r[unit] != m.value)
+            res.AddViolation(Fmt("c10:configure-then-step:%s:step%s:cmd=%u", what, stepn[code2], s.cmd),
+                             Fmt("%s (opcode %04X) then step %s of r%d=%04X (%s, stp16=%u): the register becomes %04X, the configuration just established gives %04X", what, op1,
+                                 stepn[code2], unit, s.r[unit], Cfg(mid, unit).c_str(), s.stp16, o2.r[unit], m.value),
+                             Fmt("c10cfg %s %u %u %d %d %s | %s", what, op1, op2, unit, code2, SerState(s).c_str(), SerState(mid).c_str()));
+    }
+    void ConfigureLayer(int unit, int cmd) {
+        const bool i_side = unit < 4;
+        // (G) load stepi/stepj: all 128 immediates, then +s (linear)
+        for (u16 s7 = 0; s7 < 128; ++s7)
+            for (u16 r : {(u16)0x6400, (u16)0x000F, (u16)0xFFF0}) {
+                VState s = base;
+                s.cmd = (u16)cmd, s.r[unit] = r;
+                (i_side ? s.stepi : s.stepj) = 0x15;
+                VState mid = s;
+                (i_side ? mid.stepi : mid.stepj) = s7;
+                CheckCfgSeq(i_side ? "load-stepi" : "load-stepj", (u16)((i_side ? 0xDB80 : 0xDF80) | s7), (u16)(0x0080 | unit | (3 << 3)), s, mid, unit, 3);
+                // the field holds the 7-bit step, nothing more (the word cfgi/cfgj shares its other bits with the modulo)
+                u16 w[2] = {(u16)((i_side ? 0xDB80 : 0xDF80) | s7), 0};
+                VState o1;
+                RunResult r1;
+                impl.api->run(impl.m, &s, w, 2, 1, &o1, &r1);
+                ++res.evaluations, ++res.transitions, ++res.traces_validated;
+                u16 got = i_side ? o1.stepi : o1.stepj;
+                if (r1.outcome == OUT_OK && got != s7)
+                    res.AddViolation(Fmt("c10:configure:%s:field", i_side ? "load-stepi" : "load-stepj"),
+                                     Fmt("load step #%02X leaves the 7-bit step field at %04X", s7, got), Fmt("c10cfg1 %u %s", w[0], SerState(s).c_str()));
+            }
+        // (H) load modi/modj, then +1 / -1 at both ends of the buffer
+        for (u16 mod : {(u16)1, (u16)2, (u16)3, (u16)5, (u16)7, (u16)8, (u16)0x1F, (u16)0x20, (u16)0xFF, (u16)0x100, (u16)0x1FF}) {
+            u16 mask = MaskFor(mod);
+            for (u16 off : {(u16)0, mod, (u16)(mod / 2)})
+                for (int code : {1, 2}) {
+                    VState s = base;
+                    s.cmd = (u16)cmd, s.m[unit] = 1;
+                    (i_side ? s.modi : s.modj) = (u16)(mod ^ 0x155);
+                    s.r[unit] = (u16)((0x65FF & ~mask) | off);
+                    VState mid = s;
+                    (i_side ? mid.modi : mid.modj) = mod;
+                    CheckCfgSeq(i_side ? "load-modi" : "load-modj", (u16)((i_side ? 0x0200 : 0x0A00) | mod), (u16)(0x0080 | unit | (code << 3)), s, mid, unit, code);
+                }
+        }
+        // (I) bank exchange of the configuration word, then +s / +-1: the other bank's step, modulo and (with stp16) 16-bit step apply
+        for (int stp16 = 0; stp16 < 2; ++stp16)
+            for (int br = 0; br < 2; ++br)
+                for (int m = 0; m < 2; ++m) {
+                    if (br && m)
+                        continue;
+                    for (int code : {3, 1, 2}) {
+                        VState s = base;
+                        s.cmd = (u16)cmd, s.stp16 = (u16)stp16, s.br[unit] = (u16)br, s.m[unit] = (u16)m;
+                        s.stepi = 3, s.stepib = 0x7B, s.stepj = 5, s.stepjb = 0x79, s.modi = 7, s.modib = 0x1F, s.modj = 3, s.modjb = 0x0F;
+                        s.stepi0 = 0x0010, s.stepi0b = 0x0300, s.stepj0 = 0xFFF0, s.stepj0b = 0x0021;
+                        s.r[unit] = (u16)(0x6400 | (m ? (i_side ? 0x1F : 0x0F) : 0x12));
+                        VState mid = s;
+                        if (i_side) {
+                            std::swap(mid.stepi, mid.stepib), std::swap(mid.modi, mid.modib);
+                            if (stp16)
+                                std::swap(mid.stepi0, mid.stepi0b);
+                        } else {
+                            std::swap(mid.stepj, mid.stepjb), std::swap(mid.modj, mid.modjb);
+                            if (stp16)
+                                std::swap(mid.stepj0, mid.stepj0b);
+                        }
+                        CheckCfgSeq(i_side ? "banke-cfgi" : "banke-cfgj", (u16)(0x4B80 | (i_side ? 0x01 : 0x20)), (u16)(0x0080 | unit | (code << 3)), s, mid, unit, code);
+                    }
+                }
+    }
     // ---- generic layers over the whole opcode space ----
     // the address-register uses an instruction form names (operand types of the decode table row)
     static bool UsesOf(const DecodeInfo& d, const VState& s, std::vector<Use>& uses) {
@@ -396,6 +478,44 @@ inline int RunReplay(const std::string& r, Result& res) {
                 quiet.Say(Fmt("  %s\n    %s\n", v.key.c_str(), v.text.c_str()));
             return res.violations.empty() ? 0 : 1;
         }
+    }
+    if (r.rfind("c10cfg1 ", 0) == 0) {
+        unsigned o1;
+        int used = 0;
+        if (std::sscanf(r.c_str(), "c10cfg1 %u %n", &o1, &used) != 1)
+            return 2;
+        VState st;
+        if (!ParseState(r.substr(used), st))
+            return 2;
+        Engine e(res);
+        u16 w[2] = {(u16)o1, 0};
+        VState out;
+        RunResult rr;
+        e.impl.api->run(e.impl.m, &st, w, 2, 1, &out, &rr);
+        bool i_side = (o1 & 0xFF80) == 0xDB80;
+        u16 got = i_side ? out.stepi : out.stepj;
+        if (rr.outcome == OUT_OK && got != (o1 & 0x7F)) {
+            quiet.Say(Fmt("  load step #%02X leaves the step field at %04X\n", o1 & 0x7F, got));
+            return 1;
+        }
+        return 0;
+    }
+    if (r.rfind("c10cfg ", 0) == 0) {
+        char what[32];
+        unsigned o1, o2;
+        int unit, c2, used = 0;
+        if (std::sscanf(r.c_str(), "c10cfg %31s %u %u %d %d %n", what, &o1, &o2, &unit, &c2, &used) != 5)
+            return 2;
+        std::string rest = r.substr(used);
+        size_t bar = rest.find(" | ");
+        VState st, mid;
+        if (bar == std::string::npos || !ParseState(rest.substr(0, bar), st) || !ParseState(rest.substr(bar + 3), mid))
+            return 2;
+        Engine e(res);
+        e.CheckCfgSeq(what, (u16)o1, (u16)o2, st, mid, unit, c2);
+        for (auto& v : res.violations)
+            quiet.Say(Fmt("  %s\n    %s\n", v.key.c_str(), v.text.c_str()));
+        return res.violations.empty() ? 0 : 1;
     }
     if (std::sscanf(r.c_str(), "c10 %u %u %n", &op, &exp, &n) != 2)
         return 2;
@@ -605,6 +725,11 @@ inline void Run(const Args& args, Result& res) {
                                 }
                             }
                         }
+                // ---- F: configuration instructions (load step / load modulo / bank exchange) followed by a step
+                for (int unit = 0; unit < 8; ++unit)
+                    for (int cmd = 0; cmd < 2; ++cmd)
+                        if (mine())
+                            e.ConfigureLayer(unit, cmd);
                 // ---- D/E: all 65536 first words ----
                 for (u32 op = idx; op < 0x10000; op += cnt) {
                     DecodeInfo d;
@@ -626,6 +751,7 @@ inline void Run(const Args& args, Result& res) {
                "steps 0,+1,-1,+2,-2 x bit-reverse x compatibility mode x end-pointer mode; all 128 7-bit steps x 7 16-bit steps x stp16 x mode; all "
                "512 modulo values x all offsets 0..mask x 3 high-bit patterns x both modes x +1,-1,0; every ar/arp selector and all 8 step codes; the "
                "new register value, untouched registers and the logged access address are compared with linear / cyclic-walk / bit-reverse arithmetic; "
+               "configuration instructions (load stepi/stepj with all 128 immediates, load modi/modj, banke of cfgi/cfgj with and without the 16-bit step) followed by a step in the same call; "
                "sequences of two steps inside one Run call (11 step-kind pairs x 12 modulo values x 8 steps x all offsets x modes): the second step follows the statement from "
                "wherever the first left the register; generic layers over all 65536 first words: every form that names address registers with steps (Rn/R45/R0123+step, ar- and arp-selected "
                "registers) steps them as configured (4 selector configurations), and every form that accesses memory at an address register's value "
